@@ -429,9 +429,9 @@ func init() {
 		Jobs: func(tier string, p *Program) []*Job {
 			var jobs []*Job
 			type cfg struct{ h, el, tl, w int }
-			cfgs := []cfg{{0, 1, 1, 2}, {1, 1, 1, 2}, {2, 1, 1, 2}, {2, 1, 0, 2}, {2, 1, 1, 3}, {1, 2, 1, 4}, {1, 3, 2, 4}}
+			cfgs := []cfg{{0, 1, 1, 2}, {1, 1, 1, 2}, {2, 1, 1, 2}, {2, 1, 0, 2}, {2, 1, 1, 3}, {1, 2, 1, 4}, {1, 3, 2, 4}, {1, 2, 2, 4}}
 			if tier == "thorough" {
-				cfgs = append(cfgs, cfg{3, 1, 1, 3}, cfg{2, 2, 1, 3}, cfg{2, 1, 2, 3}, cfg{3, 1, 1, 4}, cfg{1, 2, 2, 4})
+				cfgs = append(cfgs, cfg{3, 1, 1, 3}, cfg{2, 2, 1, 3}, cfg{2, 1, 2, 3}, cfg{3, 1, 1, 4})
 			}
 			for _, c := range cfgs {
 				for _, set := range []string{"nav", "search", "mixed"} {
@@ -449,7 +449,7 @@ func init() {
 			"end-of-history may land on the in-progress text or on the newest entry (code comment and GNU manual differ; both accepted)",
 		}, stepAssumptions[1:]...),
 		Stubs:  []string{"regexp.Compile(regexp.QuoteMeta(x)) on symbolic x = literal substring search"},
-		Bounds: map[string]string{"quick": "h <= 2 entries of 1 char, T <= 1 char, w <= 3 commands; plus one entry of 2 chars with w = 4", "thorough": "h <= 3, entries/T <= 2 chars, w <= 4"},
+		Bounds: map[string]string{"quick": "h <= 2 entries of 1 char, T <= 1 char, w <= 3 commands; plus one entry of 2-3 chars, T of 1-2 chars with w = 4", "thorough": "h <= 3, entries/T <= 2 chars, w <= 4"},
 		Rule:   "one state per completed symbolic path",
 	}
 }
